@@ -1095,6 +1095,7 @@ func (fc *FnCtx) nextText(x *ssa.Next) string {
 }
 
 func (fc *FnCtx) execSelect(x *ssa.Select) {
+	fc.hookAnchor("select", fc.srcText(x.Pos()), x, nil, nil)
 	tt := x.Type().(*types.Tuple)
 	idx := scalar(fc.fresh("select.idx", sInt), sInt, tt.At(0).Type())
 	lo := "0"
